@@ -323,6 +323,75 @@ def run_usage(res, base, name, kw, entry):
     shutil.rmtree(wd, ignore_errors=True)
 
 
+def isolation_case(res, base, r, idx):
+    """A failure inside one mutator costs only that mutator's candidates:
+    with an exception injected into every call of one mutator, a -j1 run
+    must complete and produce exactly what a run with that mutator disabled
+    produces."""
+    from vlib import dd
+    ns = dd.load()
+    classes = dd.all_mutator_classes(ns)
+    s = workload.small_script(r, r.choice(['tiny', 'small']))
+    text = workload.render_with_noise(r, s.nested(), comments=False)
+    rules, pred = workload.pick_spec(r, text, families=['has', 'count',
+                                                        'ntok', 'subseq'])
+    cname = r.choice(['EraseNode', 'Constants', 'ReplaceByChild',
+                      'ReplaceByVariable', 'LetSubstitution', 'SortChildren',
+                      'MergeWithChildren', 'EliminateVariable',
+                      'BoolDeMorgan', 'ArithmeticSimplifyConstant',
+                      'SimplifySymbolNames', 'BVNormalizeConstants',
+                      'StringSimplifyConstant', 'CheckSatAssuming'])
+    opt = classes[cname][2]
+    where = r.choice(['mutations', 'filter', 'all'])
+    strat = r.choice(workload.STRATEGIES)
+    common_opts = ['--strategy', strat, '-j', '1', '--timeout', '20',
+                   '--no-introduce-fresh-variables', '--arithmetic', '--bv',
+                   '--strings', '--datatypes', '--fp']
+    ra = realrun.run_ddsmt(os.path.join(base, f'iso{idx}a'), text, rules,
+                           opts=common_opts,
+                           launcher={'monitors': [], 'break_mutator': cname,
+                                     'break_where': where})
+    rb = realrun.run_ddsmt(os.path.join(base, f'iso{idx}b'), text, rules,
+                           opts=common_opts + [f'--no-{opt}'],
+                           launcher={'monitors': []})
+    shutil.rmtree(os.path.join(base, f'iso{idx}a'), ignore_errors=True)
+    shutil.rmtree(os.path.join(base, f'iso{idx}b'), ignore_errors=True)
+    res.count('evaluations')
+    res.count('isolation_cases')
+    ninj = sum(1 for e in ra.events if e['ev'] == 'injected_exception')
+    res.count('injected_mutator_exceptions', ninj)
+    witness = {'input': text, 'rules': rules, 'opts': common_opts,
+               'broken_mutator': cname, 'where': where,
+               'stderr_tail': ra.stderr[-1200:]}
+    if ra.timed_out or rb.timed_out:
+        res.count('runs_watchdog')
+        return
+    if ra.uncaught_traceback or ra.rc != 0:
+        res.violation(
+            f'mutator-failure-aborts-run:{strat}:{where}',
+            f'an exception injected into {cname}.{where} ended the run '
+            f'(exit status {ra.rc})', witness)
+        return
+    if ninj == 0:
+        res.count('isolation_cases_without_injection')
+        return
+
+    def td(run):
+        return None if run.out_bytes is None else refreader.token_digest(
+            run.out_bytes.decode('utf-8', 'replace'))
+
+    if td(ra) != td(rb):
+        witness['output_with_failing_mutator'] = (ra.out_bytes or b'').decode(
+            'utf-8', 'replace')[:1500]
+        witness['output_with_mutator_disabled'] = (
+            rb.out_bytes or b'').decode('utf-8', 'replace')[:1500]
+        res.violation(
+            f'mutator-failure-costs-other-candidates:{strat}',
+            f'with {cname}.{where} failing, the result differs from the '
+            f'result with {cname} disabled: candidates of other mutators '
+            f'were lost or gained', witness)
+
+
 def shard(args):
     res = common.ShardResult()
     r = common.rng('c04', args['shard'])
@@ -374,6 +443,8 @@ def shard(args):
                             'opts': opts, 'rc': run.rc,
                             'tests': len(run.cmdlog)})
             shutil.rmtree(wd, ignore_errors=True)
+        for i in range(args.get('iso', 0)):
+            isolation_case(res, base, r, i)
     finally:
         shutil.rmtree(base, ignore_errors=True)
     return res.to_dict()
@@ -401,7 +472,8 @@ def judge_interrupted(res, run, desc, entry):
 
 def run(ctx):
     n = int(os.environ.get('C04_N', 0)) or (18 if ctx.tier == 'quick' else 1000)
-    shards = [{'shard': i, 'n': n} for i in range(common.NCPU)]
+    shards = [{'shard': i, 'n': n, 'iso': 2 if ctx.tier == 'quick' else 25}
+              for i in range(common.NCPU)]
     results = common.run_shards('checks.c04', shards, timeout=3400)
     common.merge_shards(ctx, results)
     ctx.rule = (
@@ -412,7 +484,10 @@ def run(ctx):
         '(all/has/ntok/count/hash) so that ddSMT itself walks through '
         'ill-formed intermediates; all strategies, -j{1,2,4}, theory groups '
         'forced on; SIGINT at a random instant (every 11th run); plus 11 '
-        'usage-error cases x 2 entry points; distinct non-trivial = '
+        'usage-error cases x 2 entry points; isolation cases: an exception '
+        'injected into every call of one mutator (filter / mutations / both) '
+        'must give the same result as disabling that mutator; distinct '
+        'non-trivial = '
         'distinct not-well-formed input texts')
     ctx.assumptions = [
         'only the header "Traceback (most recent call last)" marks an '
